@@ -192,6 +192,11 @@ Definition binop_eval (op : binop) (a b : val) (st : state) : outcome val :=
   | BitOr, VSet x, VSet y => Ok (VSet (set_add_all x y)) st
   | BitOr, VInt x, VInt y => Ok (VInt (Z.lor x y)) st
   | BitOr, _, _ => Stuck "or"
+  | Div, _, _ =>      (* true division of Python numbers: always a float (exact rational here); x / 0 raises *)
+      match as_q a, as_q b with
+      | Some p, Some q => if Qeq_bool q 0 then Exc "ZeroDivisionError" st else Ok (VQ (Qred (p / q))) st
+      | _, _ => Stuck "truediv"
+      end
   end.
 
 Definition q_cmp (op : cmpop) (p q : Q) : bool :=
@@ -405,7 +410,7 @@ Definition sort_keyed (l : list (val * val)) : option (list val) :=
 Definition binop_name (op : binop) : string :=
   match op with
   | Add => "add" | Sub => "sub" | Mul => "mul" | FloorDiv => "floordiv" | Mod => "mod" | Pow => "pow"
-  | BitAnd => "and" | BitOr => "or"
+  | BitAnd => "and" | BitOr => "or" | Div => "truediv"
   end.
 
 (* Values that stand for objects of a library (a tensor is [VTuple (VStr "$tensor" :: _)], see MiniTorch.Value):
@@ -417,6 +422,17 @@ Definition foreign (v : val) : bool :=
   match v with
   | VTuple (VStr (String c _) :: _) => Ascii.eqb c "$"%char
   | _ => false
+  end.
+
+(* `x[i]` with an INTEGER key on a library object (tagged tuple (tag, component, component, ...) with at least two
+   components after the tag, e.g. a tensor = (tag, shape, data)): Python dispatches it to the object's own
+   __getitem__ (a tensor answers with its i-th row), so the unit's [ext] is asked ("$getitem") instead of reading
+   the i-th component of the encoding.  The length is looked at before the tag, so that the test is decided for
+   every pair / singleton without inspecting its components. *)
+Definition foreign_item (o k : val) : bool :=
+  match k, o with
+  | VInt _, VTuple (t :: _ :: _ :: _) => foreign (VTuple [t])
+  | _, _ => false
   end.
 
 Definition rich (op : cmpop) : bool :=
@@ -436,7 +452,13 @@ Section Interp.
   Definition subscript (o k : val) (st : state) : outcome val :=
     match o, k with
     | VDict d, _ => match dict_get d k with Some v => Ok v st | None => Exc "KeyError" st end
-    | VList l, VInt i | VTuple l, VInt i =>
+    | VList l, VInt i =>
+        let n := Z.of_nat (List.length l) in
+        let j := if Z.ltb i 0 then (i + n)%Z else i in
+        if (Z.leb 0 j && Z.ltb j n)%bool then Ok (nth (Z.to_nat j) l VNone) st else Exc "IndexError" st
+    | VTuple l, VInt i =>
+        if foreign_item o k then Stuck "item of a library object"   (* tensor[i]: not a component of the encoding; [ext] is asked *)
+        else
         let n := Z.of_nat (List.length l) in
         let j := if Z.ltb i 0 then (i + n)%Z else i in
         if (Z.leb 0 j && Z.ltb j n)%bool then Ok (nth (Z.to_nat j) l VNone) st else Exc "IndexError" st
